@@ -95,30 +95,49 @@ class P(Prop):
         (M, "TV.C05.temporal_count_any_order", "T1': on a track whose stamps never decrease, instants requested in ANY order (repetitions included) each get exactly one observation when in (tini, tfin], in request order, stamped with the instant (fix ee0419b)"),
         (M, "TV.C05.temporal_bracket", "T2: with strictly increasing stamps the sample at t uses the unique leg r>=1 with T[r-1] < t <= T[r] (positive denominator) and is P[r-1] + ((t-T[r-1])/(T[r]-T[r-1]))(P[r]-P[r-1]) in x, y, z"),
         (M, "TV.C05.temporal_number_step", "T1/T2 for a numeric step d>0: prepareTimeSampling + the loop return exactly the samples at tini+d, ..., tini+Kd with tini+Kd <= tfin < tini+(K+1)d"),
+        (M, "TV.C05.temporal_outside", "D1: requested instants all outside (tini, tfin] yield no observation and no exception, for every non-empty track, any order"),
+        (M, "TV.C05.temporal_degenerate", "D2: empty list / reference track without observation / argument of another type return the empty track; a reference Track is read through its stamps only (one observation = the one-instant list); a one-fix track answers every list with the empty track"),
+        (M, "TV.C05.temporal_repeated", "D3: an instant requested n times is answered n times (same sample) when in (tini, tfin], not at all otherwise"),
+        (M, "TV.C05.frontend_empty_request", "D4: through Track.resample an empty list / empty reference track in temporal mode returns the empty track whatever npts and factor: an empty request is not `delta is None`"),
+        (M, "TV.C05.temporal_stamps", "S1: instants requested as whole milliseconds m (any order): the outputs carry exactly the stamps ObsTime.readUnixTime(m/1000) = C03's readUnixMs m of the requested instants in (tini, tfin], each a well-formed calendar stamp reading back as m ms exactly (exact arithmetic)"),
         (M, "TV.C05.spatial_samples", "T3a: __resampleSpatial returns the first fix followed by the samples at abscissas ds, ..., N ds with N ds <= L < (N+1) ds"),
         (M, "TV.C05.spatial_on_polyline", "T3: the sample at abscissa s in (0,L] lies on the unique leg r with S[r-1] < s <= S[r], of positive length, at fraction f in (0,1], at curvilinear abscissa s; x, y, z, t interpolated with f"),
+        (M, "TV.C05.spatial_pause", "T3d: pauses (repeated positions): the leg used ends at the FIRST fix at or beyond s (a sample on a pause is the fix where the pause begins, with its z and t) and starts at the LAST fix of its start abscissa (a sample beyond a pause is interpolated in z and t from the fix that ends the pause); never a zero-length leg"),
         (M, "TV.C05.spatial_time_monotone", "T4: with non-decreasing stamps the timestamps of the spatially resampled track never decrease"),
         (M, "TV.C05.spatial_legs", "T3b: the accumulated leg lengths are the non-negative 2D distances (square = dx^2+dy^2) for any sqrt meeting math.sqrt's contract"),
         (M, "TV.C05.spatial_distance_along_leg", "T3c: the point at fraction f of a leg is at planimetric distance f|ab| from its start, so with T3 the sample k lies at distance k ds along the original 2D polyline"),
-        (M, "TV.C05.frontend", "Track.resample: feature table reset to empty; explicit delta = the private routine; delta=None = the call with step (1+1e-8) D/npts"),
+        (M, "TV.C05.frontend", "Track.resample: feature table reset to empty (the dispatcher interpolation.resample alone leaves it as it was); explicit delta = the private routine (spatial + non-numeric step = TypeError); delta=None = the call with step (1+1e-8) D/npts"),
+        (M, "TV.C05.operators", "O1: track // ref = one observation per stamp of ref in (tini, tfin], in ref's order, each the specification sample (ref empty / one observation / unsorted / outside included); track ** n = Track.resample(npts=n, temporal); track * k = Track.resample(factor=k) in spatial mode"),
+        (M, "TV.C05.sample_spec", "O2: interpolation.sample(track, t) = the specification sample when t in (tini, tfin], IndexError otherwise"),
+        (M, "TV.C05.synchronize_spec", "O3: synchronize(t1, t2) leaves both tracks with exactly the same timestamps: the stamps of either track strictly inside the common time range, in chronological order, each track holding its own specification sample at each; none inside = both empty"),
+        (M, "TV.C05.collection_resample", "O4: TrackCollection.resample = Track.resample on every track in order (returns iff every track's resampling returns)"),
+        (M, "TV.C05.collection_floordiv", "O5: collection // ref (fix ea8666e) returns, for every track in order, that track's own temporal resampling at ref's stamps (= track // ref): one observation per stamp of ref in the track's (tini, tfin], in ref's order, each the specification sample, feature table empty"),
     ]
     partial = []
     open_statements = [
-        "IEEE rounding is outside the theorems (ordered field): float overshoot int(L/ds)*ds > L (repaired by the fix commits 6fb91a5 + 3031a33: bounded scan and abscissa clamped to L, both mirrored by the model and proved to be no-ops in exact arithmetic; their effect in floats is covered by the Float-model correspondence and the oracle), loss of the (1+1e-8) guard on epoch-scale stamps and the truncation of the millisecond field are only sampled by the transfer check",
-        "stamping an output with ObsTime.readUnixTime(t) is C03's theorem; C05 theorems speak about t in seconds",
+        "IEEE rounding is outside the theorems (ordered field): float overshoot int(L/ds)*ds > L (repaired by the fix commits 6fb91a5 + 3031a33: bounded scan and abscissa clamped to L, both mirrored by the model and proved to be no-ops in exact arithmetic; their effect in floats is covered by the Float-model correspondence and the oracle), loss of the (1+1e-8) guard on epoch-scale stamps and the truncation int((t - int(t))*1000) of the millisecond field to m-1 for some whole-millisecond instants are only sampled by the transfer check (1 ms tolerance)",
+        "spatial mode: the stamp of an output is readUnixTime of an interpolated, generally non-integral number of milliseconds; the model stamps with floor(1000 t) by definition (stampOf), no theorem beyond T3/T4 on t itself",
     ]
-    modelled = ("tracklib/algo/interpolation.py prepareTimeSampling, __resampleTemporal, __resampleSpatial and the ALGO_LINEAR "
-                "branches of resample(); tracklib/core/track.py Track.resample (delta from npts/factor with the (1+1e-8) guard, "
-                "mode dispatch, reset of the feature table); ENUCoords.distance2DTo/distanceTo as sqrt parameters; "
-                "ObsTime.toAbsTime/readUnixTime through the C03 model")
+    modelled = ("tracklib/algo/interpolation.py prepareTimeSampling (number / list / Track / other argument), __resampleTemporal, __resampleSpatial, "
+                "the ALGO_LINEAR branches of the dispatcher resample() (including that it leaves the feature table untouched), sample(), synchronize() "
+                "(common range with Python's max/min, argsort as a sort of values, the de-duplication loop as written); tracklib/core/track.py Track.resample "
+                "(`delta is None` -> npts/factor with the (1+1e-8) guard, SRID read, dispatcher call, reset of the feature table), Track.__floordiv__, __pow__, "
+                "__mul__ (number); tracklib/core/track_collection.py TrackCollection.resample and __floordiv__ (temporal mode since the fix commit ea8666e); ENUCoords.distance2DTo/distanceTo as sqrt parameters; "
+                "ObsTime.toAbsTime/readUnixTime through the C03 model (stampOf)")
     trusted = ["C05: the Rat instantiation of the model runs on inputs whose leg lengths are exact square roots (else the Float instantiation only); "
-               "the stamp of an output is the C03 model applied to floor(1000 t)"]
+               "the stamp of an output is the C03 model applied to floor(1000 t) (Model/Resample.lean stampOf)",
+               "C05: for synchronize() the oracle holds each track against the property for the request that track actually received, recorded at the door of "
+               "Track.resample (which instants synchronize chooses is checked by the correspondence with the model, theorem synchronize_spec)"]
     rule = ("ENU tracks of 1..8 fixes on an integer/dyadic lattice (3-4-5 and axis-parallel legs, repeated positions), strictly increasing "
-            "irregular timestamps on a 1/8 s grid from 1970 on (year ends included); steps as number (dividing or not), sorted list of instants "
-            "(before/at/after the ends, duplicates), reference track, npts/factor; temporal and spatial; plus a float stream (arbitrary "
+            "irregular timestamps on a 1/8 s grid from 1970 on (year ends included); steps as number (int or float, dividing or not), list of instants "
+            "(before/at/after the ends, duplicates, any order), reference track, npts/factor; temporal and spatial; degenerate requests (empty list, empty / one-observation / "
+            "unsorted reference track, all instants outside the range, one instant repeated, the track itself as reference, its own stamps, a tuple, a list in spatial mode, "
+            "delta together with npts/factor, a step >= the whole range); every entry point that delegates to linear resampling (Track.resample, interpolation.resample, "
+            "track // ref, track ** n, track * k, interpolation.sample, synchronize of two tracks whose time ranges meet in every way incl. shared stamps and no common fix, "
+            "synchronize(t, t), TrackCollection.resample and collection // ref on 1..3 tracks; operators must leave their operand unchanged); plus a float stream (arbitrary "
             "coordinates, arbitrary ms), a history stream (abs_curv / ds / speed / heading computed or user features with those names, uid/base/no_data/zone set, "
             "copy, then in-place edits setX/setY/setZ/scale/translate/removeObs, then resample; model and oracle see the final geometry) and an error/edge stream (ds<=0, npts=0, other mode, duplicate stamps, empty track). "
-            "non-trivial = at least 3 fixes and at least 2 expected output observations")
+            "A call that does not return within 1 s of CPU time is reported as raising TimeoutError. non-trivial = at least 3 fixes and at least 2 expected output observations")
     rel_tol = 1e-9
     include_unsorted = True     # stream of unsorted instant lists (former finding `unsorted-request-list`, repaired by ee0419b; theorem T1')
 
@@ -126,8 +145,9 @@ class P(Prop):
     def setup(self):
         from tracklib.core import Obs, ENUCoords, ObsTime
         from tracklib.core.track import Track
+        from tracklib.core.track_collection import TrackCollection
         import tracklib.algo.interpolation as I
-        self.Obs, self.ENU, self.T, self.Track, self.I = Obs, ENUCoords, ObsTime, Track, I
+        self.Obs, self.ENU, self.T, self.Track, self.I, self.Coll = Obs, ENUCoords, ObsTime, Track, I, TrackCollection
         assert I.MODE_SPATIAL == 1 and I.MODE_TEMPORAL == 2 and I.ALGO_LINEAR == 1
 
     # ------------------------------------------------------------------ generators
@@ -135,10 +155,154 @@ class P(Prop):
         return ["temporal: every strictly increasing stamp triple in {0..5} s x step in {1/2,1,3/2,2,3,5,7} and x every single instant of the half-second grid -1..6 s",
                 "temporal: every sorted pair of instants of the half-second grid -1..6 s on the stamps (0,2,3,5)",
                 "histories: on one 5-fix lattice track, abs_curv cached (or a user feature abs_curv / ds) followed by every single edit of {scale 1/2,2,3; remove i; setx i; sety i} x ds in {1, 5/2} spatial and step 3/2 temporal",
-                "spatial: every sequence of 2..3 legs from {0, 2 (axis), 5 (3-4-5), 10 (6-8-10)} x ds in {1/2,1,2,5/2,5,7,20}"]
+                "spatial: every sequence of 2..3 legs from {0, 2 (axis), 5 (3-4-5), 10 (6-8-10)} x ds in {1/2,1,2,5/2,5,7,20}",
+                "degenerate requests: on the stamps (0,2,3,5) every reference of 0, 1 or 2 instants of the half-second grid -1..6 s x {list (with and without npts), reference Track, track // ref, interpolation.resample with a feature table}",
+                "synchronize: every pair of stamp sets of 2..3 whole seconds from {0..5} (all ways two time ranges can meet: disjoint, touching, one fix or none inside the common range, shared stamps, identical)"]
 
-    def mk_case(self, kind, pts, mode, delta=None, npts=None, factor=1, feat=False):
-        return {"kind": kind, "pts": pts, "mode": mode, "delta": delta, "npts": npts, "factor": factor, "feat": feat}
+    def mk_case(self, kind, pts, mode, delta=None, npts=None, factor=1, feat=False, via=None, others=None):
+        c = {"kind": kind, "pts": pts, "mode": mode, "delta": delta, "npts": npts, "factor": factor, "feat": feat}
+        if via is not None:
+            c["via"] = via
+        if others is not None:
+            c["others"] = others
+        return c
+
+    # ---- degenerate requests: "every requested instant", also when there is none, one, the same one many times, none inside
+    def degenerate_exhaustive(self):
+        out = []
+        base = 86400000 * 365
+        pos = [(0.0, 0.0, 0.0), (3.0, 4.0, 10.0), (3.0, 4.0, 10.0), (9.0, 12.0, -2.0)]
+        pts = [[pos[i][0], pos[i][1], pos[i][2], base + 1000 * t] for i, t in enumerate((0, 2, 3, 5))]
+        grid = [base + 500 * h for h in range(-2, 13)]
+        refs = [[]] + [[a] for a in grid] + [list(ab) for ab in itertools.combinations_with_replacement(grid, 2)]
+        for r in refs:
+            out.append(self.mk_case("x-deg-list", pts, 2, {"list": r}, npts=(3 if len(r) % 2 == 0 else None)))
+            out.append(self.mk_case("x-deg-track", pts, 2, {"track": r}))
+            out.append(self.mk_case("x-deg-floordiv", pts, 2, {"track": r}, via="floordiv"))
+            out.append(self.mk_case("x-deg-interp", pts, 2, {"list": r}, feat=True, via="interp"))
+        return out
+
+    def sync_exhaustive(self):
+        out = []
+        base = 86400000 * 365
+        sets = [T for k in (2, 3) for T in itertools.combinations(range(6), k)]
+        pa = [(0.0, 0.0, 0.0), (3.0, 4.0, 10.0), (9.0, 12.0, -2.0)]
+        pb = [(1.0, 1.0, 5.0), (1.0, 7.0, 5.0), (-7.0, 13.0, 0.0)]
+        for A in sets:
+            for B in sets:
+                a = [[pa[i][0], pa[i][1], pa[i][2], base + 1000 * t] for i, t in enumerate(A)]
+                b = [[pb[i][0], pb[i][1], pb[i][2], base + 1000 * t] for i, t in enumerate(B)]
+                out.append(self.mk_case("x-sync", a, 2, None, via="sync", others=[b]))
+        return out
+
+    def rand_degenerate(self, rng):
+        pts = self.rand_track(rng, n=rng.choice([1, 2, 2, 3, 3, 4, 5, 6]))
+        t0, t1 = pts[0][3], pts[-1][3]
+        before = lambda: max(0, t0 - rng.randrange(0, 6) * 125)
+        after = lambda: t1 + rng.randrange(1, 6) * 125
+        inside = lambda: t0 + rng.randrange(1, max(2, (t1 - t0) // 125 + 1)) * 125 if t1 > t0 else t0
+        form = rng.choice(["list", "list", "track"])
+        npts, factor = rng.choice([(None, 1), (None, 1), (3, 1), (7, 1), (None, 2), (0, 1)])
+        c = rng.randrange(12)
+        if c == 0:      # nothing requested
+            via = rng.choice(["resample", "resample", "interp"] if form == "list" else ["resample", "floordiv"])
+            return self.mk_case("deg-empty", pts, 2, {form: []}, npts, factor, rng.random() < 0.3, via=via)
+        if c == 1:      # one instant (a reference track with one observation)
+            t = rng.choice([before, after, inside, lambda: t0, lambda: t1])()
+            via = rng.choice(["resample", "floordiv"]) if form == "track" else rng.choice(["resample", "interp"])
+            return self.mk_case("deg-one", pts, 2, {form: [t]}, npts, factor, via=via)
+        if c == 2:      # every instant outside (tini, tfin], in any order
+            l = [rng.choice([before, after, lambda: t0])() for _ in range(rng.choice([1, 2, 3, 6]))]
+            return self.mk_case("deg-outside", pts, 2, {form: l}, npts, factor)
+        if c == 3:      # the same instant several times (a list; the stamps of a Track cannot repeat... they can: no check)
+            t = rng.choice([inside, inside, lambda: t1, lambda: t0, after])()
+            l = [t] * rng.choice([2, 3, 5])
+            if rng.random() < 0.4:
+                l.insert(rng.randrange(len(l) + 1), inside())
+            return self.mk_case("deg-repeated", pts, 2, {form: l}, npts, factor)
+        if c == 4:      # the reference is the track itself
+            return self.mk_case("deg-self", pts, 2, {"self": True}, npts, factor, via=rng.choice(["resample", "floordiv", "interp"]))
+        if c == 5:      # the track's own stamps as a list of ObsTime
+            return self.mk_case("deg-own-stamps", pts, 2, {"list": [p[3] for p in pts]}, npts, factor)
+        if c == 6:      # neither a number, a list nor a Track (a tuple of ObsTime): no isinstance branch of prepareTimeSampling
+            return self.mk_case("deg-other", pts, 2, {"other": [inside() for _ in range(rng.choice([0, 1, 3]))]}, npts, factor)
+        if c == 7:      # the step as a Python int
+            mode = rng.choice([1, 2])
+            span = (t1 - t0) / 1000.0 if mode == 2 else float(self.len2d(pts))
+            return self.mk_case("deg-int-step", pts, mode, {"num": max(rng.choice([1, 2, 3, 5, 10, 60]), int(span / 500) + 1)}, npts, factor, rng.random() < 0.3)
+        if c == 8:      # spatial mode with a step that is not a number: TypeError
+            return self.mk_case("deg-spatial-list", pts, 1, {form: [inside()]}, npts, factor)
+        if c == 9:      # both delta and npts / factor given: priority to delta
+            return self.mk_case("deg-delta-and-npts", pts, 2, {form: sorted(inside() for _ in range(3))}, rng.choice([1, 4, 9]), rng.choice([1, 2]))
+        if c == 10:     # a reference track in any order, with repetitions
+            l = self.rand_instants(rng, pts)
+            rng.shuffle(l)
+            return self.mk_case("deg-track-unsorted", pts, 2, {"track": l}, via=rng.choice(["resample", "floordiv"]))
+        # the step spans exactly / more than the whole duration or length: the last fix alone, or nothing
+        if rng.random() < 0.5:
+            dur = (t1 - t0) / 1000.0
+            return self.mk_case("deg-step-ge-range", pts, 2, {"num": max(0.125, dur * rng.choice([1, 1, 2, 1.5]))})
+        L = float(self.len2d(pts))
+        return self.mk_case("deg-step-ge-range", pts, 1, {"num": max(0.125, L * rng.choice([1, 1, 2, 1.5]))})
+
+    def rand_second_track(self, rng, a, lattice=True):
+        """a second track whose time range meets the first one's in every possible way (shared stamps included)"""
+        b = self.rand_track(rng, n=rng.choice([1, 2, 2, 3, 3, 4, 5]), lattice=lattice)
+        c = rng.random()
+        if c < 0.12:        # the same stamps
+            b = [[q[0], q[1], q[2], p[3]] for p, q in zip(a, (b * 8)[:len(a)])]
+            return b
+        if c < 0.2:         # disjoint in time
+            sh = a[-1][3] + rng.choice([125, 1000, 86400000]) - b[0][3]
+        else:               # one stamp of b placed near (or on) one stamp of a
+            sh = rng.choice(a)[3] + rng.choice([-5, -2, -1, 0, 0, 0, 1, 2, 5]) * (125 if lattice else 1) - rng.choice(b)[3]
+        if b[0][3] + sh < 0:
+            sh = -b[0][3]
+        return [[q[0], q[1], q[2], q[3] + sh] for q in b]
+
+    def rand_via(self, rng):
+        lattice = rng.random() < 0.7
+        pre = "via-" if lattice else "f-via-"
+        pts = self.rand_track(rng, lattice=lattice)
+        feat = rng.random() < 0.3
+        g = 125 if lattice else 1
+        c = rng.randrange(11)
+        if c == 0:
+            mode = rng.choice([1, 2, 2])
+            if mode == 1:
+                d = {"num": self.rand_step_s(rng, pts) if lattice else max(0.5, rng.uniform(0.03, 1.1) * float(self.len2d(pts)))}
+            else:
+                d = rng.choice([{"num": self.rand_step_t(rng, pts)}, {"list": self.rand_instants(rng, pts, g)}, {"track": self.rand_instants(rng, pts, g)}])
+            return self.mk_case(pre + "interp", pts, mode, d, feat=feat, via="interp")
+        if c == 1:
+            l = self.rand_instants(rng, pts, g)
+            if rng.random() < 0.3:
+                rng.shuffle(l)
+            return self.mk_case(pre + "floordiv", pts, 2, {"track": l}, feat=feat, via="floordiv")
+        if c == 2:
+            return self.mk_case(pre + "pow", pts, 2, None, rng.choice([1, 2, 3, 4, 5, 7, 10, 16]), 1, feat, via="pow")
+        if c == 3:
+            return self.mk_case(pre + "mul", pts, 1, None, None, rng.choice([1, 2, 3]), feat, via="mul")
+        if c == 4:
+            return self.mk_case(pre + "sample", pts, 2, {"list": self.rand_instants(rng, pts, g)[:1]}, feat=feat, via="sample")
+        if c in (5, 6, 7) or (c == 8 and not lattice):     # (syncself chains two resamplings through the millisecond
+            # truncation of the stamps: exact on the 1/8 s lattice only)
+            return self.mk_case(pre + "sync", pts, 2, None, feat=feat, via="sync", others=[self.rand_second_track(rng, pts, lattice)])
+        if c == 8:
+            return self.mk_case(pre + "syncself", pts, 2, None, feat=feat, via="syncself")
+        others = [self.rand_second_track(rng, pts, lattice) for _ in range(rng.choice([0, 1, 2]))]
+        mode = rng.choice([1, 2, 2])
+        if mode == 1:
+            d = {"num": self.rand_step_s(rng, pts) if lattice else max(0.5, rng.uniform(0.03, 1.1) * float(self.len2d(pts)))}
+            span = max(float(self.len2d(q)) for q in [pts] + others)
+        else:
+            d = rng.choice([{"num": self.rand_step_t(rng, pts)}, {"list": self.rand_instants(rng, pts, g)}, {"track": self.rand_instants(rng, pts, g)}])
+            span = max((q[-1][3] - q[0][3]) / 1000.0 for q in [pts] + others)
+        if "num" in d and span / d["num"] > 2000:      # the same step serves every track of the collection: keep the longest one affordable
+            d = {"num": float(Fraction(span / 2000).limit_denominator(8)) + 0.125}
+        if c == 9:
+            return self.mk_case(pre + "coll", pts, mode, d, feat=feat, via="coll", others=others)
+        return self.mk_case(pre + "collfloordiv", pts, 2, {"track": self.rand_instants(rng, pts, g)}, feat=feat, via="collfloordiv", others=others)
 
     def rand_pre(self, rng, pts):
         """a history on the track object before resample(): cached / user features, in-place edits, bookkeeping fields"""
@@ -369,6 +533,13 @@ class P(Prop):
                 out.append(self.mk_case("edge-one-fix", pts[:1], rng.choice([1, 2]), rng.choice([{"num": 1.0}, None]), None, 2))
             else:
                 out.append(self.mk_case("edge-factor0", pts, rng.choice([1, 2]), None, None, 0))
+        # degenerate requests and the other entry points that delegate to linear resampling
+        out += self.degenerate_exhaustive()
+        out += self.sync_exhaustive()
+        for _ in range(n // 2):
+            out.append(self.rand_degenerate(rng))
+        for _ in range(n):
+            out.append(self.rand_via(rng))
         if self.include_unsorted:
             for _ in range(n // 10):
                 pts = self.rand_track(rng, n=rng.choice([3, 4, 5]))
@@ -457,45 +628,114 @@ class P(Prop):
     def len3d_exact(self, pts):
         return all(is_sq(Fraction(b[0] - a[0]) ** 2 + Fraction(b[1] - a[1]) ** 2 + Fraction(b[2] - a[2]) ** 2) for a, b in zip(pts, pts[1:]))
 
+    def all_pts(self, case):
+        return [case["pts"]] + list(case.get("others") or [])
+
     def rat_ok(self, case):
         """may the Rat instantiation be run on this case? (everything dyadic, square roots exact)"""
         if case["kind"].startswith("f-"):
             return False
-        pts = case["pts"]
-        if any(p[3] % 125 for p in pts):
-            return False
-        if not all(is_sq(Fraction(b[0] - a[0]) ** 2 + Fraction(b[1] - a[1]) ** 2) for a, b in zip(pts, pts[1:])):
-            return False
+        for pts in self.all_pts(case):
+            if any(p[3] % 125 for p in pts):
+                return False
+            if not all(is_sq(Fraction(b[0] - a[0]) ** 2 + Fraction(b[1] - a[1]) ** 2) for a, b in zip(pts, pts[1:])):
+                return False
+        if case.get("via") in ("sync", "syncself"):
+            return True
         d = case["delta"]
         if d is None:
             return False            # delta = (1+1e-8)*L/npts is not dyadic: Float instantiation only
         if "num" in d:
             return dyadic8(d["num"])
-        return all(v % 125 == 0 for v in d.get("list", d.get("track", [])))
+        return all(v % 125 == 0 for v in (self.instants(case) or []))
 
     def instants(self, case):
+        """the instants of a list / reference-track / other request (None for a number or no delta)"""
         d = case["delta"]
-        return d.get("list", d.get("track")) if d and "num" not in d else None
+        if not d or "num" in d:
+            return None
+        if "self" in d:
+            return [p[3] for p in case["pts"]]
+        return d.get("list", d.get("track", d.get("other")))
+
+    # ------------------------------------------------------------------ what a call asks of each track
+    def sync_request(self, a, b):
+        """the instants synchronize(a, b) has to request: the stamps of either track lying strictly inside the common
+        time range (max of the first stamps, min of the last stamps), in chronological order, with multiplicity"""
+        if not a or not b:
+            return None
+        lo, hi = max(a[0][3], b[0][3]), min(a[-1][3], b[-1][3])
+        return sorted(p[3] for p in a + b if lo < p[3] < hi)
+
+    def subcases(self, case):
+        """[(label, plain Track.resample case)] — one per track the call resamples: what the property's oracle is asked"""
+        c = getattr(self, "_sub_cache", None)
+        if c is not None and c[0] is case:
+            return c[1]
+        r = self._subcases(case)
+        self._sub_cache = (case, r)
+        return r
+
+    def _subcases(self, case):
+        via = case.get("via", "resample")
+        d = case["delta"]
+
+        def one(pts, mode, delta, npts=None, factor=1, **kw):
+            return dict({"kind": case["kind"], "pts": pts, "mode": mode, "delta": delta, "npts": npts, "factor": factor,
+                         "feat": case["feat"]}, **kw)
+        if via == "resample":
+            e = self.eff(case)
+            if d is not None and "self" in d:
+                e = dict(e, delta={"track": [p[3] for p in e["pts"]]})
+            return [("", e)]
+        if d is not None and "self" in d:
+            d = {"track": [p[3] for p in case["pts"]]}
+        if via == "interp":
+            return [("", one(case["pts"], case["mode"], d))]
+        if via in ("floordiv", "sample"):
+            return [("", one(case["pts"], 2, d))]
+        if via == "pow":
+            return [("", one(case["pts"], 2, None, npts=case["npts"]))]
+        if via == "mul":
+            return [("", one(case["pts"], 1, None, factor=case["factor"]))]
+        if via == "sync":
+            a, b = case["pts"], case["others"][0]
+            L = self.sync_request(a, b)
+            if L is None:
+                return [("track 1: ", one(a, 3, None)), ("track 2: ", one(b, 3, None))]      # IndexError: no demand
+            return [("track %d: " % (k + 1), one(q, 2, {"list": sorted(set(L))}, sync_mult=L)) for k, q in enumerate((a, b))]
+        if via == "syncself":
+            return []       # the same object twice: the second resampling reads the result of the first (model only)
+        if via == "coll":
+            return [("track %d: " % (k + 1), one(q, case["mode"], d)) for k, q in enumerate(self.all_pts(case))]
+        if via == "collfloordiv":
+            return [("track %d: " % (k + 1), one(q, 2, d)) for k, q in enumerate(self.all_pts(case))]
+        raise ValueError("unknown via %r" % via)
 
     def describe(self, case):
         pre = case.get("pre")
-        case = self.eff(case)
-        t = self._describe(case)
+        subs = self.subcases(case)
+        t = self._describe(subs[0][1]) if subs else {"kind": case["kind"], "n": len(case["pts"]), "mode": 2}
+        t["kind"] = case["kind"]
+        t["scalar"] = "rat+float" if self.rat_ok(self.eff(case)) else "float"
+        t["via"] = case.get("via", "resample")
         if pre is not None:
             t["pre"] = "+".join(op[0] if op[0] != "feat" else "feat:" + op[1] for op in pre) or "-"
         return t
 
     def _describe(self, case):
-        t = {"kind": case["kind"], "n": len(case["pts"]), "mode": case["mode"], "scalar": "rat+float" if self.rat_ok(case) else "float"}
+        t = {"kind": case["kind"], "n": len(case["pts"]), "mode": case["mode"]}
         e = self.expected(case)
         if e is not None:
             t["expected_len"] = min(len(e["req"]), 12)
         return t
 
     def nontrivial(self, case):
-        case = self.eff(case)
-        e = self.expected(case)
-        return e is not None and len(case["pts"]) >= 3 and len(e["req"]) >= 2
+        for _, sc in self.subcases(case):
+            e = self.expected(sc)
+            if e is not None and len(sc["pts"]) >= 3 and len(e["req"]) >= 2:
+                return True
+        return False
 
     # ------------------------------------------------------------------ implementation
     def build(self, pts, feat=False):
@@ -519,87 +759,214 @@ class P(Prop):
         n = case["npts"] if case["npts"] is not None else len(case["pts"]) * case["factor"]
         return n != 0 and not (case["pts"][-1][3] - case["pts"][0][3]) / n > 0
 
+    def make_delta(self, d, tr):
+        """the `delta` argument as Python receives it"""
+        if d is None:
+            return None
+        if "num" in d:
+            return d["num"]                     # int or float, as stored in the case
+        if "list" in d:
+            return [self.T(*fields_of_ms(ms)) for ms in d["list"]]
+        if "track" in d:
+            return self.build([[float(i), 0.0, 0.0, ms] for i, ms in enumerate(d["track"])])
+        if "self" in d:
+            return tr                           # the reference is the track itself
+        return tuple(self.T(*fields_of_ms(ms)) for ms in d["other"])     # neither a number, a list nor a Track
+
+    def snapshot_delta(self, delta):
+        """a `delta` argument seen at the door of Track.resample, as a case's "delta" """
+        stamp = lambda t: ms_of_fields([t.year, t.month, t.day, t.hour, t.min, t.sec, t.ms])
+        try:
+            if delta is None:
+                return None
+            if isinstance(delta, (int, float)):
+                return {"num": delta}
+            if isinstance(delta, list):
+                return {"list": [stamp(t) for t in delta]}
+            if isinstance(delta, self.Track):
+                return {"track": [stamp(delta.getObs(i).timestamp) for i in range(len(delta))]}
+        except Exception:
+            pass
+        return {"other": []}
+
+    def spy_resample(self, tracks, call):
+        """run `call()` and return, per track of `tracks`, the outermost Track.resample request it received:
+        [delta, mode, npts, factor] or None when Track.resample was not called on it"""
+        orig = self.Track.resample
+        seen = {}
+
+        def spy(this, delta=None, algo=1, mode=1, npts=None, factor=1):
+            if id(this) not in seen:
+                seen[id(this)] = [self.snapshot_delta(delta), mode, npts, factor]
+            return orig(this, delta, algo, mode, npts, factor)
+        self.Track.resample = spy
+        try:
+            call()
+        finally:
+            self.Track.resample = orig
+        return [seen.get(id(t)) for t in tracks]
+
+    def dump(self, tr):
+        pts = []
+        for i in range(len(tr)):
+            pts.append(self.dump_obs(tr.getObs(i)))
+        return {"pts": pts, "feat": sorted(tr.getListAnalyticalFeatures())}
+
+    def dump_obs(self, o):
+        ts = o.timestamp
+        f = [ts.year, ts.month, ts.day, ts.hour, ts.min, ts.sec, ts.ms]
+        ok = all(isinstance(v, int) for v in f) and wellformed(f)
+        return [float(o.position.getX()), float(o.position.getY()), float(o.position.getZ()), ms_of_fields(f) if ok else None, f]
+
+    CALL_LIMIT_S = 6        # seconds of CPU time (not wall: immune to machine load) a call may take ...
+    CALL_LIMIT_KB = 1 << 20  # ... and growth of the resident set (1 GiB) it may cause, before it is reported as raising TimeoutError
+    # (the heaviest generated call -- some 60 000 output observations -- needs about 2 s and a few tens of MB)
+
     def impl(self, case):
-        if self.hangs(self.eff(case)):
+        if any(self.hangs(sc) for _, sc in self.subcases(case)):
             return {"err": "err:nonterm"}
+        # the known infinite loop (non-positive step) is never entered; any other call that does not come back -- e.g. a changed
+        # front end that turns an empty request into a zero step -- must not hang the check: it is interrupted and reported
+        import signal, threading, resource
+        if threading.current_thread() is not threading.main_thread():
+            return self._impl(case)
+        rss0 = resource.getrusage(resource.RUSAGE_SELF).ru_maxrss
+        ticks = [0]
+
+        def on_alarm(signum, frame):
+            ticks[0] += 1
+            if ticks[0] * 0.25 >= self.CALL_LIMIT_S:
+                raise TimeoutError("the call did not return within %d s of CPU time" % self.CALL_LIMIT_S)
+            if resource.getrusage(resource.RUSAGE_SELF).ru_maxrss - rss0 > self.CALL_LIMIT_KB:
+                raise TimeoutError("the call did not return and has allocated more than %d MB" % (self.CALL_LIMIT_KB >> 10))
+        old = signal.signal(signal.SIGVTALRM, on_alarm)
+        signal.setitimer(signal.ITIMER_VIRTUAL, 0.25, 0.25)
+        try:
+            return self._impl(case)
+        finally:
+            signal.setitimer(signal.ITIMER_VIRTUAL, 0, 0)
+            signal.signal(signal.SIGVTALRM, old)
+
+    def _impl(self, case):
+        via = case.get("via", "resample")
         tr = self.build(case["pts"], case["feat"])
+        others = [self.build(q, k % 2 == 1) for k, q in enumerate(case.get("others") or [])]
         geom_ok = True
         if case.get("pre"):
             tr = self.apply_pre_track(tr, case["pre"])
             want = self.eff(case)["pts"]
             have = [[float(tr.getX(i)), float(tr.getY(i)), float(tr.getZ(i))] for i in range(len(tr))]
             geom_ok = len(have) == len(want) and all(close(h, w[:3], 1e-12) for h, w in zip(have, want))
-        d = case["delta"]
-        if d is None:
-            delta = None
-        elif "num" in d:
-            delta = d["num"]
-        elif "list" in d:
-            delta = [self.T(*fields_of_ms(ms)) for ms in d["list"]]
+        delta = self.make_delta(case["delta"], tr)
+        if via == "resample":
+            tr.resample(delta=delta, algo=self.I.ALGO_LINEAR, mode=case["mode"], npts=case["npts"], factor=case["factor"])
+            out = self.dump(tr)
+        elif via == "interp":           # the module-level dispatcher, called directly
+            self.I.resample(tr, delta, self.I.ALGO_LINEAR, case["mode"])
+            out = self.dump(tr)
+        elif via in ("floordiv", "pow", "mul", "sample"):       # these return a new object and must leave the track alone
+            before = self.dump(tr)
+            if via == "floordiv":
+                out = self.dump(tr // delta)
+            elif via == "pow":
+                out = self.dump(tr ** case["npts"])
+            elif via == "mul":
+                out = self.dump(tr * case["factor"])
+            else:
+                out = {"pts": [self.dump_obs(self.I.sample(tr, delta[0]))], "feat": []}
+            if self.dump(tr) != before:
+                out["orig_changed"] = True
+        elif via == "sync":
+            # what synchronize() asks of each track is recorded at the door of Track.resample, so that the oracle can hold the
+            # result against the property for exactly that request (which instants synchronize chooses is not C05's business)
+            reqs = self.spy_resample([tr, others[0]], lambda: self.I.synchronize(tr, others[0]))
+            out = {"tracks": [self.dump(tr), self.dump(others[0])], "requests": reqs}
+        elif via == "syncself":
+            self.I.synchronize(tr, tr)
+            out = self.dump(tr)
+        elif via == "coll":
+            coll = self.Coll([tr] + others)
+            coll.resample(delta, self.I.ALGO_LINEAR, case["mode"])
+            out = {"tracks": [self.dump(t) for t in coll]}
+        elif via == "collfloordiv":
+            coll = self.Coll([tr] + others)
+            before = [self.dump(t) for t in coll]
+            res = coll // delta
+            out = {"tracks": [self.dump(t) for t in res]}
+            if [self.dump(t) for t in coll] != before:
+                out["orig_changed"] = True
         else:
-            delta = self.build([[float(i), 0.0, 0.0, ms] for i, ms in enumerate(d["track"])])
-        tr.resample(delta=delta, algo=self.I.ALGO_LINEAR, mode=case["mode"], npts=case["npts"], factor=case["factor"])
-        pts = []
-        for i in range(len(tr)):
-            o = tr.getObs(i)
-            ts = o.timestamp
-            f = [ts.year, ts.month, ts.day, ts.hour, ts.min, ts.sec, ts.ms]
-            ok = all(isinstance(v, int) for v in f) and wellformed(f)
-            pts.append([float(tr.getX(i)), float(tr.getY(i)), float(tr.getZ(i)), ms_of_fields(f) if ok else None, f])
-        out = {"pts": pts, "feat": sorted(tr.getListAnalyticalFeatures())}
+            raise ValueError("unknown via %r" % via)
         if not geom_ok:
             out["geom_mismatch"] = True     # the harness's own replay of the history disagrees with the track: harness bug
         return out
 
     # ------------------------------------------------------------------ model
+    MULTI = ("sync", "coll", "collfloordiv")       # calls that resample several tracks
+
     def req_line(self, case, sc):
         num = (lambda v: ratstr(Fraction(v))) if sc == "q" else fbits
         tnum = (lambda ms: ratstr(Fraction(ms, 1000))) if sc == "q" else (lambda ms: fbits(abs_time(ms)))
-        pts = ";".join(",".join([num(p[0]), num(p[1]), num(p[2]), tnum(p[3])]) for p in case["pts"]) or "_"
+        via = case.get("via", "resample")
+        e = self.eff(case)
+
+        def track(pts, feat):
+            return (";".join(",".join([num(p[0]), num(p[1]), num(p[2]), tnum(p[3])]) for p in pts) or "_") + "^" + (
+                "speedlike" if feat and pts else "_")
+        tracks = [track(e["pts"], case["feat"])] + [track(q, k % 2 == 1) for k, q in enumerate(case.get("others") or [])]
         d = case["delta"]
         if d is None:
             ds = "none"
         elif "num" in d:
             ds = "num:" + num(d["num"])
+        elif "other" in d:
+            ds = "other"
         else:
-            ds = "list:" + (",".join(tnum(ms) for ms in self.instants(case)) or "_")
-        return "C05.resample %s %s %d %s %s %d %s" % (sc, pts, case["mode"], ds, "none" if case["npts"] is None else case["npts"],
-                                                     case["factor"], num(G))
+            ds = ("list:" if "list" in d else "track:") + (",".join(tnum(ms) for ms in self.instants(e)) or "_")
+        return "C05.call %s %s %s %s %d %s %s %d" % (sc, via, num(G), "|".join(tracks), case["mode"], ds,
+                                                    "none" if case["npts"] is None else case["npts"], case["factor"])
 
     def requests(self, case):
-        case = self.eff(case)
         ls = [self.req_line(case, "f")]
-        if self.rat_ok(case):
+        if self.rat_ok(self.eff(case)):
             ls.append(self.req_line(case, "q"))
         return ls
 
-    def decode_one(self, reply, sc):
+    def decode_one(self, case, reply, sc):
         if reply.startswith("err:"):
             return {"err": reply}
         if not reply.startswith("ok "):
             raise ValueError("driver replied %r" % reply[:80])
-        body, feats = reply[3:].split("|")
         num = (lambda s: float(Fraction(s))) if sc == "q" else bitsf
-        pts = []
-        for tok in ([] if body == "_" else body.split(";")):
-            v = tok.split(",")
-            if v[4] == "neg":
-                pts.append([num(v[0]), num(v[1]), num(v[2]), None, num(v[3])])
-            else:
-                f = list(map(int, v[4:11]))
-                pts.append([num(v[0]), num(v[1]), num(v[2]), ms_of_fields(f), num(v[3])])
-        return {"pts": pts, "feat": [] if feats == "_" else feats.split(",")}
+        tracks = []
+        for t in reply[3:].split("#"):
+            body, feats = t.split("|")
+            pts = []
+            for tok in ([] if body == "_" else body.split(";")):
+                v = tok.split(",")
+                if v[4] == "neg":
+                    pts.append([num(v[0]), num(v[1]), num(v[2]), None, num(v[3])])
+                else:
+                    f = list(map(int, v[4:11]))
+                    pts.append([num(v[0]), num(v[1]), num(v[2]), ms_of_fields(f), num(v[3])])
+            tracks.append({"pts": pts, "feat": [] if feats == "_" else feats.split(",")})
+        if case.get("via") in self.MULTI:
+            return {"tracks": tracks}
+        if len(tracks) != 1:
+            raise ValueError("driver replied %d tracks" % len(tracks))
+        return tracks[0]
 
     def decode(self, case, replies):
-        out = {"f": self.decode_one(replies[0], "f")}
+        out = {"f": self.decode_one(case, replies[0], "f")}
         if len(replies) > 1:
-            out["q"] = self.decode_one(replies[1], "q")
+            out["q"] = self.decode_one(case, replies[1], "q")
         return out
 
     def compare(self, case, impl_out, model_out):
         if isinstance(impl_out, dict) and impl_out.get("geom_mismatch"):
             return "harness: geometry after the history differs from the harness's own computation"
-        case = self.eff(case)
+        if isinstance(impl_out, dict) and impl_out.get("orig_changed"):
+            return "the operator modified the track it was applied to (the model returns a new track and leaves the operand as it is)"
         for sc, m in model_out.items():
             msg = self.compare_one(case, impl_out, m)
             if msg:
@@ -611,6 +978,19 @@ class P(Prop):
             if a.get("err") != m.get("err"):
                 return "impl=%s model=%s" % (str(a)[:300], str(m)[:300])
             return None
+        if ("tracks" in a) != ("tracks" in m):
+            return "impl=%s model=%s" % (str(a)[:300], str(m)[:300])
+        if "tracks" in a:
+            if len(a["tracks"]) != len(m["tracks"]):
+                return "number of tracks: impl=%d model=%d" % (len(a["tracks"]), len(m["tracks"]))
+            for k, (x, y) in enumerate(zip(a["tracks"], m["tracks"])):
+                msg = self.compare_track(x, y)
+                if msg:
+                    return "track %d: %s" % (k + 1, msg)
+            return None
+        return self.compare_track(a, m)
+
+    def compare_track(self, a, m):
         if a["feat"] != m["feat"]:
             return "feature table: impl=%s model=%s" % (a["feat"], m["feat"])
         if len(a["pts"]) != len(m["pts"]):
@@ -675,6 +1055,8 @@ class P(Prop):
         if any(b <= a for a, b in zip(T, T[1:])):
             return None
         d = case["delta"]
+        if d is not None and "other" in d:
+            return None         # neither a number, a list nor a Track: outside the forms the property quantifies over
         cols = [[Fraction(p[c]) for p in pts] for c in range(3)] + [[t * 1000 for t in T]]
         exact = self.rat_ok(case)      # Python's float arithmetic on the abscissas (instants / curvilinear) is exact
         scale = max([1.0] + [abs(v) for p in pts for v in p[:3]])
@@ -746,29 +1128,83 @@ class P(Prop):
         return out
 
     def spec(self, case, out):
-        case = self.eff(case)
+        """the property's oracle, asked once per track the call resamples (see `subcases`)"""
+        subs = self.subcases(case)
+        via = case.get("via", "resample")
+        if "err" in out:
+            exps = [self.expected(sc) for _, sc in subs]
+            if not subs or any(e is None for e in exps):
+                return None             # some track is outside the property's preconditions: no demand on the call
+            if via == "sample" and not exps[0]["req"]:
+                return None             # sample() at an instant outside (tini, tfin]: the property does not say what it returns
+            return "raised %s (%s) on %s with strictly increasing stamps" % (
+                out["err"], out.get("detail", ""), "tracks" if len(subs) > 1 else "a track")
+        outs = out["tracks"] if "tracks" in out else [out]
+        if via == "sync" and out.get("requests"):
+            # the property, for the request each track actually received (with its multiplicities)
+            subs = [(label, dict(sc, mode=r[1], delta=r[0], npts=r[2], factor=r[3], sync_mult=None) if r is not None else sc)
+                    for (label, sc), r in zip(subs, out["requests"])]
+        if not subs:
+            return None
+        if len(outs) != len(subs):
+            return "the call returned %d tracks for %d" % (len(outs), len(subs))
+        for (label, sc), o in zip(subs, outs):
+            msg = self.spec_one(sc, o)
+            if msg:
+                return label + msg
+        return None
+
+    @staticmethod
+    def check_sample(what, i, g, e):
+        for c in range(3):
+            if not (e[c][0] <= g[c] <= e[c][1]):
+                return "%s sample %d: %s = %r, the interpolant gives %r" % (what, i, "xyz"[c], g[c], (e[c][0] + e[c][1]) / 2)
+        if g[3] is None:
+            return "%s sample %d carries the malformed stamp %s" % (what, i, g[4])
+        if not (e[3][0] <= g[3] <= e[3][1]):
+            return "%s sample %d is stamped %d ms, expected %s ms" % (what, i, g[3], (e[3][0] + e[3][1]) / 2)
+        return None
+
+    def spec_one(self, case, out):
         exp = self.expected(case)
         if exp is None:
             return None
-        if "err" in out:
-            return "raised %s (%s) on a track with strictly increasing stamps" % (out["err"], out.get("detail", ""))
         got = out["pts"]
         what = "temporal" if case["mode"] == 2 else "spatial"
         want = exp["req"]
+        mult = case.get("sync_mult")
+        if mult is not None:
+            # synchronize(): an instant that is a stamp of both tracks may be requested -- hence answered -- once or twice
+            # (the property leaves that to synchronize); every other instant exactly once, in chronological order
+            uniq = sorted(set(mult))
+            assert len(uniq) == len(want) and not exp["opt"]
+            cnt = [mult.count(v) for v in uniq]
+
+            def match(i, k):
+                if k == len(want):
+                    return None if i == len(got) else "synchronize: %d observations for %d instants strictly inside the common time range" % (len(got), len(want))
+                if i >= len(got):
+                    return "synchronize: %d observations for %d instants strictly inside the common time range" % (len(got), len(want))
+                err = self.check_sample(what, i, got[i], want[k])
+                if err:
+                    return err
+                r = match(i + 1, k + 1)
+                if r is not None and cnt[k] >= 2 and i + 1 < len(got) and self.check_sample(what, i + 1, got[i + 1], want[k]) is None:
+                    if match(i + 2, k + 1) is None:
+                        return None
+                return r
+            return match(0, 0)
         if len(got) != len(want):
             if len(got) == len(want) + len(exp["opt"]):
                 want = want + exp["opt"]
             else:
-                return "%s resampling returned %d observations, the property demands %d%s" % (
-                    what, len(got), len(want), " (or %d: the last one is within rounding of the end)" % (len(want) + 1) if exp["opt"] else "")
+                return "%s resampling returned %d observations, the property demands %d%s%s" % (
+                    what, len(got), len(want), " (or %d: the last one is within rounding of the end)" % (len(want) + 1) if exp["opt"] else "",
+                    " (no requested instant lies after the first and not after the last original timestamp)" if not want and case["mode"] == 2 else "")
         for i, (g, e) in enumerate(zip(got, want)):
-            for c in range(3):
-                if not (e[c][0] <= g[c] <= e[c][1]):
-                    return "%s sample %d: %s = %r, the interpolant gives %r" % (what, i, "xyz"[c], g[c], (e[c][0] + e[c][1]) / 2)
-            if g[3] is None:
-                return "%s sample %d carries the malformed stamp %s" % (what, i, g[4])
-            if not (e[3][0] <= g[3] <= e[3][1]):
-                return "%s sample %d is stamped %d ms, expected %s ms" % (what, i, g[3], (e[3][0] + e[3][1]) / 2)
+            err = self.check_sample(what, i, g, e)
+            if err:
+                return err
         if case["mode"] == 1:
             st = [g[3] for g in got]
             if any(b < a for a, b in zip(st, st[1:])):
@@ -785,27 +1221,46 @@ class P(Prop):
             for i in range(len(pre)):
                 yield dict(case, pre=pre[:i] + pre[i + 1:])
         pts = case["pts"]
+        others = case.get("others") or []
+        via = case.get("via", "resample")
+        if via in ("coll", "collfloordiv"):
+            for k in range(len(others)):
+                yield dict(case, others=others[:k] + others[k + 1:])
+        if via in ("interp", "floordiv") and case["delta"] and "self" not in case["delta"]:
+            c2 = {k: v for k, v in case.items() if k != "via"}      # the same request through Track.resample
+            yield dict(c2, mode=2 if via == "floordiv" else case["mode"])
         if len(pts) > 2:
             for i in range(len(pts)):
                 yield dict(case, pts=pts[:i] + pts[i + 1:])
-        l = self.instants(case)
+        for k, q in enumerate(others):
+            if len(q) > 2:
+                for i in range(len(q)):
+                    yield dict(case, others=others[:k] + [q[:i] + q[i + 1:]] + others[k + 1:])
+        d = case["delta"]
+        key = next((k for k in ("list", "track", "other") if d and k in d), None)
+        l = d[key] if key else None
         if l is not None and len(l) > 1:
-            k = "list" if "list" in case["delta"] else "track"
             for i in range(len(l)):
-                yield dict(case, delta={k: l[:i] + l[i + 1:]})
+                yield dict(case, delta={key: l[:i] + l[i + 1:]})
         if case["feat"]:
             yield dict(case, feat=False)
+        if d is not None and via == "resample" and (case["npts"] is not None or case["factor"] != 1):
+            yield dict(case, npts=None, factor=1)
+        allp = [pts] + others
         if pts and pts[0][3] >= 86400000:
             sh = pts[0][3] // 86400000 * 86400000
-            c2 = dict(case, pts=[[p[0], p[1], p[2], p[3] - sh] for p in pts])
-            if l is not None:
-                k = "list" if "list" in case["delta"] else "track"
-                if min(l) - sh < 0:
-                    return
-                c2["delta"] = {k: [v - sh for v in l]}
+            if all(p[3] - sh >= 0 for q in allp for p in q) and all(v - sh >= 0 for v in (l or [])):
+                c2 = dict(case, pts=[[p[0], p[1], p[2], p[3] - sh] for p in pts])
+                if others:
+                    c2["others"] = [[[p[0], p[1], p[2], p[3] - sh] for p in q] for q in others]
+                if l is not None:
+                    c2["delta"] = {key: [v - sh for v in l]}
+                yield c2
+        if any(p[2] != 0.0 for q in allp for p in q):
+            c2 = dict(case, pts=[[p[0], p[1], 0.0, p[3]] for p in pts])
+            if others:
+                c2["others"] = [[[p[0], p[1], 0.0, p[3]] for p in q] for q in others]
             yield c2
-        if any(p[2] != 0.0 for p in pts):
-            yield dict(case, pts=[[p[0], p[1], 0.0, p[3]] for p in pts])
 
     def mutate(self, case, rng):
         for _ in range(20):
@@ -813,7 +1268,11 @@ class P(Prop):
             if not pts:
                 return
             d = case["delta"]
+            case = {k: v for k, v in case.items() if k not in ("via", "others")}
+            if case["mode"] not in (1, 2):
+                case["mode"] = 2
             if d and "num" in d:
                 yield dict(case, delta={"num": rng.choice([0.5, 1.0, 2.0, d["num"] / 2, d["num"] * 2])})
             else:
                 yield dict(case, delta={"num": rng.choice([0.5, 1.0, 2.0])}, npts=None)
+                yield dict(case, delta={"list": []}, npts=rng.choice([None, 3]))
